@@ -1224,6 +1224,9 @@ func (c *Ctx) BV2Int(a *Term) *Term {
 	if a.IsConst() {
 		return c.Int(a.BigVal())
 	}
+	if a.Op == OInt2BV {
+		return c.IntOp(OIMod, a.Args[0], c.Int(new(big.Int).Lsh(big.NewInt(1), uint(a.S.W))))
+	}
 	return c.mk(&Term{Op: OBV2Int, S: SInt, Args: []*Term{a}})
 }
 
